@@ -64,7 +64,7 @@ class TLCResult:
 
 
 def run_tlc(module, cfg, *, env=None, workers=1, timeout=600, xmx="4g", simulate=None, depth=None,
-            coverage=False, dump=None, extra=(), deadlock=None, spec_dir=SPEC, seed=None, cwd=None):
+            coverage=False, dump=None, extra=(), deadlock=None, spec_dir=SPEC, seed=None, cwd=None, xss="16m"):
     """module: module name in spec_dir; cfg: path or literal cfg text."""
     ensure_kernel()
     tmp = tempfile.mkdtemp(prefix="ioptverif-tlc-")
@@ -76,7 +76,7 @@ def run_tlc(module, cfg, *, env=None, workers=1, timeout=600, xmx="4g", simulate
         else:
             cfgp = cfg if os.path.isabs(cfg) else os.path.join(spec_dir, cfg)
         cp = ":".join([JAR, CM, CLASSES])
-        cmd = ["java", "-XX:+UseParallelGC", "-Xmx" + xmx, "-Xss16m", "-Djava.io.tmpdir=" + tmp, "-cp", cp,
+        cmd = ["java", "-XX:+UseParallelGC", "-Xmx" + xmx, "-Xss" + xss, "-Djava.io.tmpdir=" + tmp, "-cp", cp,
                "-Dtlc2.overrides.TLCOverrides=tlc2.overrides.TLCOverrides:iopt.verif.Overrides",
                "tlc2.TLC", "-workers", str(workers), "-metadir", os.path.join(tmp, "meta"),
                "-noGenerateSpecTE", "-config", cfgp]
